@@ -315,7 +315,9 @@ def node_families(ctx, cur):
         if e is None:
             continue
         obs = c["obs"]
-        pydiff = [i for i, (a, b) in enumerate(zip(obs, sp)) if a[0] != "skip" and not F.ans_eq(a, b)]
+        pyexact = [i for i, (a, b) in enumerate(zip(obs, sp)) if a[0] != "skip" and not F.ans_eq(a, b)]
+        # which of several missing methods a failed assertion names is an implementation detail: any of them is accepted
+        pydiff = [i for i in pyexact if not F.ans_eq_loose(obs[i], sp[i], sp[i])]
         if sorted(pydiff) != sorted(e[1]):
             ctx.violation("spec-python-vs-coq", "the Python transcription of Go's rules and the Coq SPEC disagree on a family",
                           dict(kind="family", family=fam, python_diff=pydiff, coq_diff=e[1]), concrete=False)
@@ -349,7 +351,7 @@ def node_families(ctx, cur):
             continue
         fam, obs, sp = fams[k], cases[k]["obs"], specs[k]
         for p in e[1]:
-            if p in e[0][0][0]:
+            if p in e[0][0][0] or F.ans_eq_loose(obs[p], sp[p], sp[p]):
                 continue
             cls = attribute(unfixed, e, p)
             sig = SIG[cls] if cls else "known-classes-combined"
